@@ -12,9 +12,56 @@ def _fams(l):
     return '[' + '; '.join(str(T.FAM[f]) for f in l) + ']%N'
 
 
+CLOSURE_PINS = os.path.join(HERE, 'closure_pins.json')
+
+
+def closure_shapes(src):
+    """The action CALLABLES: for every translated directive method the shapes of its nested functions (`register`,
+    `discrim_func`, ...), names blanked so that renaming one is harmless.  The translator only follows the
+    statement-level code of the directives; what the callables do is described by the declared read/write table and
+    watched by the registry monitor -- but the monitor only sees the registry, so their text is pinned as well."""
+    import ast
+    import hashlib
+    from . import translate
+    out = {}
+    for fn, cls, meths in translate.EMIT_FUNCS:
+        for m in meths:
+            try:
+                node = translate.find_method(src, fn, cls, m)
+            except Exception:
+                out['%s:%s.%s' % (fn, cls, m)] = ['missing']
+                continue
+            hs = []
+            for d in ast.walk(node):
+                if d is not node and isinstance(d, ast.FunctionDef):
+                    c = F.strip_doc(d)
+                    for x in ast.walk(c):
+                        if isinstance(x, ast.FunctionDef) and x.name == d.name:
+                            x.name = '_'
+                    hs.append(hashlib.sha1(ast.dump(c).encode()).hexdigest()[:16])
+            out['%s:%s.%s' % (fn, cls, m)] = sorted(hs)
+    return out
+
+
+def check_closures(src, problems):
+    import json
+    got = closure_shapes(src)
+    try:
+        with open(CLOSURE_PINS) as f:
+            want = json.load(f)
+    except OSError:
+        problems.append('closure pins file missing')
+        return
+    for k in sorted(set(got) | set(want)):
+        if got.get(k) != want.get(k):
+            problems.append('callables of %s changed (nested function shapes %s -> %s): the declared read/write table and the '
+                            'store model describe the previous text' % (k, want.get(k), got.get(k)))
+
+
 def facts(src):
     problems = []
     summary = F.check_shapes(src, os.path.join(HERE, 'pins.json'), problems)
+    check_closures(src, problems)
     ex = T.extract(src, problems)
     sites = ex['sites']
     names = [s[0] for s in sites]
